@@ -105,7 +105,7 @@ TEnd ==
 
 TTwice ==
   /\ IsEvent("twice")
-  /\ Verdict(Rec[l].equal, <<case, "second_load_differs">>)
+  /\ Verdict(Rec[l].equal, <<Rec[l].case, "second_load_differs", IF "after" \in DOMAIN Rec[l] THEN Rec[l].after ELSE "">>)
   /\ UNCHANGED <<ps, res, case, base>>
 
 TObs ==
